@@ -11,6 +11,8 @@ if any(f.startswith('Proofs/AsmProofs') for f in files):
     gen.append('Gen/FfAsm.v')
 if any(f.startswith('Proofs/BigIntEq') for f in files):
     gen.append('Gen/BigIntRoutines.v')
+if any(f.startswith('Proofs/BigIntEqLoops') for f in files):
+    gen.append('Gen/BigIntLoops.v')
 if any(f.startswith('Proofs/EffectsDocumented') for f in files):
     gen.append('Gen/EffectsIR.v')
 open(C + '/_CoqProject', 'w').write('-Q . Verif\n' + '\n'.join(gen + files) + '\n')
